@@ -98,6 +98,23 @@ def outs : St → List Op → List Out
   | _, [] => []
   | st, op :: r => (step st op).2 :: outs (step st op).1 r
 
+/-- pre-state and output of every step of a run -/
+def trace : St → List Op → List (St × Out)
+  | _, [] => []
+  | st, op :: r => (st, (step st op).2) :: trace (step st op).1 r
+
+/-- operations that cannot shorten a lease: everything except nacks, non-positive deadline
+    modifications, seeks and the delivery prune jobs (the exceptions the property names) -/
+def Op.keepsLease : Op → Bool
+  | .nack .. => false
+  | .delay _ d => decide (0 < d)
+  | .seekTime .. => false
+  | .seekSnap .. => false
+  | .pruneCompletedDeliveries .. => false
+  | .pruneExpiredDeliveries .. => false
+  | .pruneDeletedSubDeliveries .. => false
+  | _ => true
+
 /-- operations that neither rewind a subscription nor delete delivery rows -/
 def Op.delsMonotone : Op → Bool
   | .seekTime .. => false
